@@ -298,6 +298,67 @@ def run(ctx, rep):
 
 
 # ---------------------------------------------------------------------------------------------------------------------
+def run_lookahead(ctx, rep, rid="R-C08-lookahead"):
+    """A look-ahead `!(tok(A) / tok(B))` / `&tok(A)` asks "is the next *token* one of these?".  Where white space or a comment may stand
+    between the element before it and that token, the look-ahead only sees the trivia unless the grammar skips it first: the element
+    before a token look-ahead ends with `_` (or is `_`).  Without it `name [i]` and `name[i]` take different alternatives."""
+    g = ctx.peg
+    t = Trivia(g)
+    r = rep.rule(rid, "every look-ahead over tokens is evaluated after the optional trivia has been skipped (the element before it is `_` or always ends with it), "
+                      "so a blank or comment before the token does not change which alternative is taken", floor=1, floor_what="token look-aheads")
+    reach = t.reachable("library")
+
+    def tokens_of(prim):
+        out = []
+        if prim.kind == "call" and g.terminal(prim):
+            out.append(t.describe(type("E", (), {"prim": prim, "label": None, "look": None, "rep": None, "sep": None})()))
+        elif prim.kind == "group":
+            for sq in prim.expr.alts:
+                for e in sq.elems:
+                    out += tokens_of(e.prim)
+        return out
+    seen = {}
+
+    def visit(rule, sq, env):
+        els = sq.elems
+        for i, e in enumerate(els):
+            if e.look is not None:
+                toks = tokens_of(e.prim)
+                if toks:
+                    # previous input-consuming or trivia element
+                    k = i - 1
+                    while k >= 0 and t.zero_width(els[k]):
+                        k -= 1
+                    key = (rule, "%s(%s)" % (e.look, " / ".join(toks)))
+                    n = seen[key] = seen.get(key, 0) + 1
+                    inst = "rule %s|%s#%d" % (rule, key[1], n)
+                    where = "%s:%d" % (PARSER_FILE, e.line)
+                    if k < 0:
+                        r.ok(inst, where, "first element of its sequence")
+                    elif t.is_trivia(els[k]) or t.elem_trails(els[k], env):
+                        r.ok(inst, where, "after `_`")
+                    elif rule in EXEMPT_LEXICAL if "EXEMPT_LEXICAL" in globals() else False:
+                        r.ok(inst, where, "inside a lexical-token rule")
+                    else:
+                        r.finding(inst + "|trivia-not-skipped", where, "the look-ahead tests the token directly after %s: with a blank or a comment in between it sees the trivia, "
+                                  "the test gives the other answer and the parse takes a different alternative (`x [i]` vs `x[i]`)" % t.describe(els[k]))
+            for p in (e.prim, e.sep):
+                if p is None or e.look is not None:
+                    continue
+                if p.kind == "group":
+                    for s2 in p.expr.alts:
+                        visit(rule, s2, env)
+                elif p.kind == "prec":
+                    for lvl in p.levels:
+                        for s2 in lvl:
+                            visit(rule, s2, env)
+    for nme in sorted(reach):
+        rl = g.rules[nme]
+        env = t.env_of(rl)
+        for sq in rl.expr.alts:
+            visit(nme, sq, env)
+
+
 def run_glue(ctx, rep, rid="R-C08-glue"):
     """The lexical-token exemption of R-C08-trivia ("`-5` is one literal, no white space inside") is only harmless where the spaced
     spelling `- 5` has no *other* parse.  In an ordered choice, if an earlier alternative can begin with token T glued to what follows
